@@ -6,6 +6,12 @@ ALL = ["C%02d" % i for i in range(1, 21)]
 
 # id -> (level, technique, level text, level note, design ref)
 CHECKS = {
+ "C07": ("exploration", "bounded exhaustive history enumeration on the real dkv.DB (background flush/compaction held or quiescent as an enumerated action) vs a map",
+         "every put/delete history up to depth 5-6 over colliding keys under ten tiny option sets; background work completed or held back at every step; Get of every key and ScanPrefix of every prefix after every write, compared with a map",
+         "single writer; background interleavings finer than hold/release are the schedule tier's subject (not yet built); MemoryFilesystem", "DESIGN.md §5 C07"),
+ "C18": ("model_checking", "explicit-state breadth-first search over level layouts produced by the real LevelList/Compactor, states cloned and canonicalised, invariants on every transition",
+         "all level layouts reachable within the stated depth by flushes, Compact begin and Compact apply (flushes landing in between) under fourteen compactor settings; contents (Get/ScanPrefix) equal the reference after every step, sorted levels disjoint, no newer version beneath an older one, compaction reaches a fixed point from every state",
+         "depth-bounded; three keys, seven flush images, at most three level-0 tables; sequence numbers rank-normalised in the state key", "DESIGN.md §5 C18"),
  "C17": ("exploration", "bounded exhaustive input/history enumeration on the real SST and WAL code vs reference lists",
          "every run of 0..50 entries from a 56-key universe (binary, empty, prefix-related keys; tombstone masks exhaustive up to 8 entries), whole and split at every target size, every lookup key / prefix, descriptor JSON round trip; every WAL history over put/delete/cut/truncate/rotate+save up to depth 6-7 with every legal start marker",
          "bounded sizes and alphabet; MemoryFilesystem stands for all file systems", "DESIGN.md §5 C17"),
